@@ -22,7 +22,7 @@ def xor_hex(a, b):
 class P(StreamProperty):
     pid = 'C16'
     module = 'OpenFecVerif.Props.C16'
-    theorems = ['C16_accept_iff', 'C16_product', 'C16_encoder_satisfies_checks', 'C16_single_loss', 'C16_decoder_is_closure']
+    theorems = ['C16_accept_iff', 'C16_product', 'C16_encoder_satisfies_checks', 'C16_single_loss', 'C16_decoder_is_closure', 'C16_structure', 'C16_finish_ok_iff_determined', 'C16_roundtrip']
     rule = ('the whole parameter grid k 0..19 x r 0..27 (accept/reject vs the product-shape rule); for each of the %d accepted configurations: the matrix '
             'dumped from the real session vs the D x L product structure, an encoder with NULL and own slots (every check sums to zero over the output), and '
             'decoder sessions for ALL receive patterns when n <= 13 and sampled ones (every single and double loss, random heavier losses) otherwise, through both '
